@@ -45,7 +45,7 @@ func mustCallSites(e *Engine, fn *ssa.Function, target string, depth int) []ssa.
 		if len(inner) == 0 {
 			continue
 		}
-		if e.FA(callee).MustFollow(callee.Blocks[0].Instrs[0], inner) == nil {
+		if e.FA(callee).EntryMustPass(inner) == nil {
 			out = append(out, c)
 		}
 	}
